@@ -22,6 +22,7 @@ func init() {
 			"pushed on the leaves channel first. (S3) SnapshotState and setStateCheckpoint hand the same leaves channel to the storage manager and to snapshotUserAccountDataTrie, which snapshots/checkpoints the data trie " +
 			"of every leaf that decodes to an account with a non-empty root hash. A skipped child, an unpersisted node or an unvisited data trie makes the snapshot unrecoverable. " +
 			"checkpointHashesHolder.RemoveCommitted drops entries only behind the test that the entry reached is the given root (directly or through a found-flag). " +
+			"trieCreator.Create gives each storage manager a checkpoint hashes holder created in that call. " +
 			"Not decided (schedules/value-level): atomicity against concurrent commits, errors swallowed by takeSnapshot's logging, queue capacity.",
 		Run: runC10,
 	})
